@@ -144,7 +144,11 @@ func WriteTime(w io.Writer, buf encoding.Bufferer, t time.Time) (n int64, err er
 	if t.IsZero() {
 		m, err = w.Write(make([]byte, 16))
 	} else {
-		m, err = w.Write(EncodeTime(t))
+		b := EncodeTime(t)
+		if len(b) != 16 {
+			return 0, fmt.Errorf("time %v does not fit the 16 bytes time field", t)
+		}
+		m, err = w.Write(b)
 	}
 	if err != nil {
 		return 0, err
